@@ -210,6 +210,22 @@ def rejections():
     rej("variant_prec_as_argument", D, Attr([P(None, prec=2)], ["_variant"]))
     rej("variant_zero_as_alias", D, Attr([P("v", zero=True, width=4)], [Arg("_variant", "v")]))
     rej("variant_one_plain_one_spec", D, Attr([P("_variant"), " ", P("_variant", sign="+")]))
+    # every kind of modifier as the ONLY thing in the specifier (one program per disjunct of "carries any format specifier"), in
+    # placeholder and in argument form; `fmt::Arguments` accepts every one of them, so only the derive's rejection stops these
+    rej("variant_only_align", D, Attr([P("_variant", align="<")]))
+    rej("variant_only_fill_align", D, Attr([P("_variant", fill="*", align="^")]))
+    rej("variant_only_align_as_argument", D, Attr([P(None, align=">")], ["_variant"]))
+    rej("variant_only_fill_align_as_alias", D, Attr(["[", P("v", fill="-", align="<"), "]"], [Arg("_variant", "v")]))
+    rej("variant_plain_then_only_fill_align", D, Attr([P("_variant"), " ", P("_variant", fill="-", align="<")]))
+    rej("variant_only_plus", D, Attr([P("_variant", sign="+")]))
+    rej("variant_only_minus_as_argument", D, Attr([P(0, sign="-")], ["_variant"]))
+    rej("variant_only_alt", D, Attr([P("_variant", alt=True)]))
+    rej("variant_only_zero", D, Attr([P("_variant", zero=True)]))
+    rej("variant_only_width", D, Attr([P("_variant", width=8)]))
+    rej("variant_only_width_arg", D, Attr([P("_variant", width=("arg", "w"))], [Arg("6", "w")]))
+    rej("variant_only_width_as_argument", D, Attr(["w ", P(None, width=3)], ["_variant"]))
+    rej("variant_only_prec", D, Attr([P("_variant", prec=3)]))
+    rej("variant_only_prec_star", D, Attr([P(None, prec="*")], ["2", "_variant"]))
     rej("variant_lhex_trait", D, Attr([P("_variant", "x")]))                    # (would not compile anyway: Arguments is not LowerHex)
     rej("variant_lhex_trait_lhex_derive", "LowerHex", Attr([P("_variant", "x")]),
         [Variant("A", T1), Variant("B", [], attr=Attr(["b"]))])                     # (same)
